@@ -28,7 +28,7 @@ type chain struct {
 	inter      [][]byte
 }
 
-var chainNames = []string{"mixed-key-cert", "three-for-two", "parameters", "unclean-paths", "sublayout", "plain", "cert-via-intermediate"}
+var chainNames = []string{"mixed-key-cert", "three-for-two", "parameters", "unclean-paths", "sublayout", "plain", "cert-via-intermediate", "second-layout-key-did-not-sign"}
 
 // buildChain materialises one of the generated supply chains below base.
 func buildChain(base, name string, dsse bool) *chain {
@@ -65,9 +65,14 @@ func buildChain(base, name string, dsse bool) *chain {
 		nb, na := gen.Wide()
 		root := gen.NewCert(gen.Key("p256b"), nil, gen.Attr{CN: "root"}, true, nb, na)
 		mid := gen.NewCert(gen.Key("p256c"), root, gen.Attr{CN: "intermediate"}, true, nb, na)
-		leaf := gen.NewCert(gen.Key("ed4"), mid, gen.Attr{CN: "f"}, false, nb, na)
+		// several values per attribute, so that a check that edits the caller's constraint lists in place shows
+		leaf := gen.NewCert(gen.Key("ed4"), mid, gen.Attr{CN: "f", DNS: []string{"a.example", "b.example"}, Emails: []string{"a@example.org", "b@example.org"},
+			Orgs: []string{"orga", "orgb"}, URIs: []string{"spiffe://x/a", "spiffe://x/b"}}, false, nb, na)
 		s := gen.Step("s1", 1, nil, allow, allow)
-		s.CertificateConstraints = []intoto.CertificateConstraint{{CommonName: "*", DNSNames: []string{"*"}, Emails: []string{"*"}, Organizations: []string{"*"}, Roots: []string{"*"}, URIs: []string{"*"}}}
+		s.CertificateConstraints = []intoto.CertificateConstraint{
+			{CommonName: "other", DNSNames: []string{"*"}, Emails: []string{"*"}, Organizations: []string{"*"}, Roots: []string{"*"}, URIs: []string{"*"}},
+			{CommonName: "f", DNSNames: []string{"a.example", "b.example"}, Emails: []string{"a@example.org", "b@example.org"}, Organizations: []string{"orga", "orgb"},
+				Roots: []string{root.AsKey.KeyID}, URIs: []string{"spiffe://x/a", "spiffe://x/b"}}}
 		lay = gen.Layout(gen.FarFuture, []intoto.Step{s}, nil, keys)
 		lay.RootCas = map[string]intoto.Key{root.AsKey.KeyID: root.AsKey}
 		c.inter = [][]byte{mid.PEM}
@@ -108,6 +113,13 @@ func buildChain(base, name string, dsse bool) *chain {
 			panic(err)
 		}
 		return c
+	case "second-layout-key-did-not-sign":
+		// two layout keys are supplied, the layout carries the signature of one: refused under every order of the key loop
+		other := gen.Key("ed6")
+		c.keys = func() map[string]intoto.Key { return map[string]intoto.Key{owner.ID: owner.Pub, other.ID: other.Pub} }
+		sup := gen.NewSupply(dir, 2, 1, dsse)
+		c.linkDir = sup.LinkDir
+		lay = sup.Layout
 	default: // plain
 		sup := gen.NewSupply(dir, 2, 1, dsse)
 		c.linkDir = sup.LinkDir
@@ -284,6 +296,8 @@ func expectVerdict(chain, op string) string {
 		}
 		return "reject" // {P} unreplaced, replaced by x, or replaced by the literal text {Q}: the product f is not allowed
 	case chain == "cert-via-intermediate" && op == "V(-inter)":
+		return "reject"
+	case chain == "second-layout-key-did-not-sign":
 		return "reject"
 	}
 	return "accept"
@@ -560,7 +574,7 @@ var _ = sort.Strings
 func init() {
 	mcx.Register(&mcx.Driver{
 		ID: "C10", Run: run, Replay: replay,
-		Rule: "seven generated supply chains (step mixing key- and certificate-authorised links with threshold 2 and three links; three agreeing links with different by-products for threshold 2 on the last step; {P} markers in rules, command and inspection run; un-clean artifact paths under MATCH rules with two links; a sublayout; a plain chain; a step whose certificate functionary reaches the layout root only through a caller-supplied intermediate) x {legacy, DSSE}, parameter dictionaries incl. values that hold another parameter's marker: " +
+		Rule: "eight generated supply chains (step mixing key- and certificate-authorised links with threshold 2 and three links; three agreeing links with different by-products for threshold 2 on the last step; {P} markers in rules, command and inspection run; un-clean artifact paths under MATCH rules with two links; a sublayout; a plain chain; a step whose certificate functionary reaches the layout root only through a caller-supplied intermediate, with two-valued constraint lists; a chain verified with two layout keys of which one did not sign) x {legacy, DSSE}, parameter dictionaries incl. values that hold another parameter's marker: " +
 			"(1) InTotoVerify under every combination of iteration orders with at most 1 (thorough: 2) deviations from sorted order plus ALL permutations at the counting loop, the reference-link pick, the sublayout loops, the parameter loop and the layout-key loop; verdict and canonical summary must be identical in all executions; " +
 			"(2) explicit-state BFS over histories of operations {V(), V(P=f), V(P=x), VDir(P=f); parameters chain: + V(P={Q},Q=f); intermediate chain: + V(-inter) without the intermediates} on the same in-memory layout and key objects (full tree to depth 2, deeper levels from states not seen before, depth 3 quick / 4 thorough): every operation's result equals that of the same operation on freshly loaded copies and the serialisation of layout, keys and link files is unchanged; " +
 			"(3) VerifyArtifacts, SubstituteParameters, ReduceStepsMetadata, VerifyLinkSignatureThesholds called twice on the same in-memory objects. states = executions (part 1) + distinct history states; transitions = choice points + operations.",
